@@ -210,7 +210,7 @@ func c18Walk(idx, s ssa.Value) (*ssa.If, int, bool, bool) {
 			}
 		}
 	}
-	if phi == nil || len(phi.Edges) != 2 {
+	if phi == nil || len(phi.Edges) < 2 {
 		return nil, 0, false, false
 	}
 	okInit, okStep, late := false, false, false
@@ -220,10 +220,14 @@ func c18Walk(idx, s ssa.Value) (*ssa.If, int, bool, bool) {
 		} else if ok && k.Value != nil && k.Int64() > first {
 			okInit, late = true, true // starts after the first element
 		}
+		isStep := false
 		if b, ok := e.(*ssa.BinOp); ok && b.Op == token.ADD && b.X == ssa.Value(phi) {
 			if k, ok := b.Y.(*ssa.Const); ok && k.Value != nil && k.Int64() == 1 {
-				okStep = true
+				okStep, isStep = true, true
 			}
+		}
+		if _, isConst := e.(*ssa.Const); !isConst && !isStep {
+			return nil, 0, false, false // the index is also changed in some other way
 		}
 	}
 	if !okInit || !okStep {
